@@ -254,12 +254,12 @@ PcJudge(st, U, uq, e) ==
                [] e.op = "val" -> [st EXCEPT !.val = e.b]
                [] OTHER        -> st
       P    == SeqRange(U)
-      opts == [p \in P |-> OptsOf(st, e, p)]
-      all  == UNION {opts[p] : p \in P}
       o    == e.obs
       \* an option is compatible with what get_without_ttl_check shows afterwards
       shows(p, x) == o.gnc[Idx(U, p)] = (IF x.en.abs THEN <<>> ELSE <<x.en.path>>)
-      cands == {f \in [P -> all] : \A p \in P : f[p] \in opts[p] /\ shows(p, f[p])}
+      opts == [p \in P |-> {x \in OptsOf(st, e, p) : shows(p, x)}]
+      all  == UNION {opts[p] : p \in P}
+      cands == {f \in [P -> all] : \A p \in P : f[p] \in opts[p]}
       nrm(f) == Cardinality({p \in P : f[p].rm = 1})
       good == {f \in cands : ResOkFor(st, e, nrm(f))}
       clean == {f \in good : \A p \in P : f[p].dev = ""}
